@@ -83,7 +83,7 @@ func (*ISO3k3y) clear3k3yData(start sizeBytes, data []byte) {
 		return
 	}
 
-	for i := _3k3yMaskedDataBegin - start; i < min(_3k3yMaskedDataEnd, end)-start; i++ {
+	for i := max(_3k3yMaskedDataBegin, start) - start; i < min(_3k3yMaskedDataEnd, end)-start; i++ {
 		data[i] = 0
 	}
 }
